@@ -25,6 +25,17 @@
      layers and never transfer their parameters: the returned model computes a different function
      (C15_to_folded_as_coded_counterexample); what is proved is the intended conversion
      (C15_to_folded) and the as-coded one when the deleted batch norms are identities (…_partial).
+   * QConv2DBatchnorm accepts `data_format` and does not forward it: a channels_first request builds
+     a channels_last layer (§8: C15_ctor_conv_drops_data_format, C15_conv_data_format_counterexample,
+     partial C15_ctor_conv_data_format_partial; the depthwise class honours the argument).
+
+  Strengthening round: every statement quantifies over both data formats (`Geom.cf`; §8), and §9
+  puts HISTORIES on one layer object inside the theorems — `get_folded_weights`, `unfold_model` and
+  inference calls used repeatedly, interleaved with parameter replacements that are not training
+  steps (`variable.assign`, `set_weights` / `load_weights` with any `_iteration` value, quantizer
+  attributes replaced): the k-th use equals the first use of a fresh object holding the current
+  parameters (C15_history_fresh_twin), unfolding at any point uses the CURRENT parameters
+  (C15_history_unfold_current, C15_history_folded_weights_current).
 -/
 import QKV.Lemmas.Fold
 namespace QKV.Fold
